@@ -249,7 +249,7 @@ class C05(Prop):
         # widths implied by the Gaussian density: q(g,0)/q(0,0) = exp(-g^2 / (2 sg^2))
         wg = 0.05 / math.sqrt(-2 * math.log(qg / q0)) if 0 < qg < q0 else float('nan')
         wd = 0.05 / math.sqrt(-2 * math.log(qd / q0)) if 0 < qd < q0 else float('nan')
-        return {'integral': float(val), 'draws': draws, 'zs': zs, 'density_widths': [wg, wd]}
+        return {'integral': float(val), 'draws': draws, 'zs': zs, 'density_widths': [wg, wd], 'pn': float(alg.alpha['proposal_normalisation'])}
 
     # ------------------------------------------------------------------ model
     def _pk(self, case):
@@ -304,6 +304,8 @@ class C05(Prop):
             if not isinstance(impl, dict) or 'widths' not in impl:
                 return []
             return [self._decision_request(case, impl['widths'])]
+        if k == 'jump-density':
+            return ['propnorm %s %s' % (bits(case['sg']), bits(case['sd']))]
         return []
 
     # decision cases need the model's acceptance before the implementation can be driven: two-phase evaluation
@@ -328,6 +330,10 @@ class C05(Prop):
                 if not close(m, impl[nme], rtol=1e-8, atol=1e-300):
                     out.append(('multi-event %s: model %r, implementation %r' % (nme, m, impl[nme]), None))
                     break
+        elif k == 'jump-density':
+            m = reply_floats(replies[0])[0]
+            if not close(m, impl['pn'], rtol=1e-9, atol=1e-12):
+                out.append(('proposal_normalisation: model %r (mass of the two normal distributions on the lune ranges), implementation %r' % (m, impl['pn']), None))
         elif k == 'jump':
             for nme, rep in zip(['q', 'a_up', 'a_down'], replies):
                 m = reply_floats(rep)[0]
